@@ -85,8 +85,9 @@ type bias struct {
 	backends             []string
 	loggers              []string
 	faultFree            bool
-	readFaultsOnly       bool // store faults are transient read errors only (err / timeout on Get)
-	pReuse, pReuseChange int  // a client sends an earlier request value again / after changing its selecting fields in place
+	readFaultsOnly       bool     // store faults are transient read errors only (err / timeout on Get)
+	varyFrom             []string // if set: the Vary values plans are drawn from
+	pReuse, pReuseChange int      // a client sends an earlier request value again / after changing its selecting fields in place
 	sched                []string
 	stallPct             int
 	lifetimes            []int64 // seconds
@@ -311,6 +312,9 @@ func (g *gen) plan(b *bias, resIdx, nRes int, vary string) RespPlan {
 	if g.chance(max(b.pMultiField, 15)) {
 		p.Extra = append(p.Extra, [2]string{"X-Multi", "a$SID"}, [2]string{"X-Multi", "b, c"}, [2]string{"Link", `</x>; rel="next", </y>; rel="prev"`})
 	}
+	if p.CC != "" && g.chance(12) {
+		p.CCStyle = pick(g, "lines", "case")
+	}
 	p.Change = g.chance(b.pChange)
 	p.No304 = g.chance(b.pNo304)
 	if g.chance(b.pLoc) {
@@ -352,8 +356,12 @@ func (g *gen) resource(b *bias, i, n int) Resource {
 	}
 	r.LMBase = pick(g, int64(10), 100, 1000, 10000, 1000000)
 	vary := ""
+	choices := varyChoices
+	if len(b.varyFrom) > 0 {
+		choices = b.varyFrom
+	}
 	if g.chance(b.pVary) {
-		vary = pick(g, varyChoices...)
+		vary = pick(g, choices...)
 	}
 	if g.chance(b.pVaryStar) {
 		vary = "*"
@@ -362,7 +370,11 @@ func (g *gen) resource(b *bias, i, n int) Resource {
 	for k := 0; k < np; k++ {
 		v := vary
 		if g.chance(b.pVaryFlip) {
-			v = pick(g, append(varyChoices, "", "*")...)
+			if len(b.varyFrom) > 0 {
+				v = pick(g, choices...)
+			} else {
+				v = pick(g, append(varyChoices, "", "*")...)
+			}
 		}
 		r.Plans = append(r.Plans, g.plan(b, i, n, v))
 	}
@@ -499,6 +511,10 @@ func (g *gen) op(b *bias, scn *Scenario) Op {
 			}
 		}
 	}
+	if o.CC != "" && g.chance(12) {
+		o.CCStyle = pick(g, "lines", "case")
+	}
+	o.EmptyMethod = o.Method == "" && g.chance(6)
 	o.Hdr = g.selHeaders(res, b)
 	o.Range = g.chance(b.pRange)
 	if g.chance(b.pCond) {
@@ -527,6 +543,9 @@ func (g *gen) base(profile string, seed uint64, b *bias) *Scenario {
 	scn.Backend = pick(g, b.backends...)
 	if scn.Backend == "fsenc" {
 		scn.EncVia = pick(g, "option", "dsn", "env")
+	}
+	if scn.Backend != "mem" {
+		scn.FsMTime = g.chance(30)
 	}
 	scn.Logger = pick(g, b.loggers...)
 	if t := pick(g, b.swrTimeouts...); t != -1 {
@@ -564,8 +583,8 @@ func (g *gen) base(profile string, seed uint64, b *bias) *Scenario {
 				for j := k - 1; j >= 0; j-- {
 					if p := cl.Ops[j]; p.Admin == "" && p.Cond == "" && p.CancelNs == 0 && !p.Poison {
 						own := o.Hdr
-						o.Method, o.Res, o.Spelling, o.CC, o.Hdr, o.Range = p.Method, p.Res, p.Spelling, p.CC, p.Hdr, p.Range
-						o.Cond, o.CancelNs, o.Poison, o.Reuse = "", 0, false, true
+						o.Method, o.Res, o.Spelling, o.CC, o.CCStyle, o.Hdr, o.Range = p.Method, p.Res, p.Spelling, p.CC, p.CCStyle, p.Hdr, p.Range
+						o.Cond, o.CancelNs, o.Poison, o.Reuse, o.EmptyMethod = "", 0, false, true, p.EmptyMethod
 						if g.chance(b.pReuseChange) {
 							// ... after changing the selecting header fields of that value in place
 							o.Hdr = g.selHeaders(&scn.Resources[o.Res], b)
@@ -738,6 +757,20 @@ var profiles = map[string]func(b *bias, g *gen){
 		b.pNoCache, b.pNoStore, b.pMustReval, b.pReqCC, b.pCancel = 1, 1, 2, 8, 8
 		b.backends = []string{"mem", "mem", "mem", "fs"}
 		b.resources = [2]int{1, 1}
+	},
+	"varyflip": func(b *bias, g *gen) {
+		// C08: several variants of one URI whose Vary changes between replies, validated again and again: a full
+		// reply to a validation may land on the entry of another record of the index
+		b.pVary, b.pVaryFlip, b.pVaryStar, b.pSelHdr = 100, 70, 2, 100
+		b.varyFrom = []string{"X-A", "X-B", "X-A", "X-B", "X-A, X-B"}
+		b.pValidator, b.pChange, b.pNo304, b.pSWR = 90, 40, 20, 25
+		b.lifetimes = []int64{1, 2, 2, 300}
+		b.freshKinds = []int{10, 0, 0, 0}
+		b.pNoCache, b.pNoStore, b.pMustReval, b.pReqCC, b.pNoCacheQ, b.pErrStatus = 0, 0, 0, 6, 0, 0
+		b.resources, b.clients, b.ops, b.plans = [2]int{1, 1}, [2]int{1, 1}, [2]int{10, 22}, [2]int{2, 4}
+		b.thinkFocus = 0
+		b.thinks = []int64{0, 1, 3, 3}
+		b.backends = []string{"mem", "mem", "fs"}
 	},
 	"swrrace": func(b *bias, g *gen) {
 		// overlapping background refreshes of one entry while the resource changes at the origin: a slow 304 for
